@@ -123,6 +123,9 @@ End Unused.
 Record decl := {
   d_name : name;
   d_fastly : bool;          (* context.IsFastlySubroutine(name): vcl_recv ... vcl_log, vcl_pipe *)
+  d_rejected : bool;        (* the name is a builtin function or function namespace (math, h2, std ...):
+                               AddSubroutine / AddUserDefinedFunction return "duplicate definition" and the
+                               subroutine is never registered (its calls still enter the call graph) *)
   d_scope : N;              (* fastlyScopes[name], else getSubroutineCallScope(decl) when > 0, else 0 *)
   d_callees : list name;    (* extractCallees(decl.Block) *)
 }.
@@ -139,6 +142,7 @@ Fixpoint register (ds : list decl) (reg : list decl) : list decl :=
   match ds with
   | [] => reg
   | d :: r =>
+    if d_rejected d then register r reg else
     match find_decl (d_name d) reg with
     | Some _ => if d_fastly d
                 then register r (map (fun e => if Nat.eqb (d_name e) (d_name d) then d else e) reg)
